@@ -7,6 +7,7 @@ mod refcodec;
 mod reply;
 mod rng;
 mod runner;
+mod scripts;
 mod steps;
 mod trace;
 mod vtime;
